@@ -11,6 +11,7 @@ from ..rules_dep import run_dep, run_err_both
 SELF, SPAN = ("param", 1, "self"), ("param", 2, "span")
 
 from ..rules_pair import ym_pair
+from ..rules_signpair import run_partsign
 
 
 def run(ctx, rep):
@@ -18,6 +19,7 @@ def run(ctx, rep):
     run_err_both(ctx, rep, "C08")
     prog = ctx.prog("Q")
     ym_pair(rep, prog, floor=15)
+    run_partsign(ctx, rep)
     rep.notes.append("Does not decide equality with wide-integer reference arithmetic in general.")
     pipeline(rep, prog)
     saturating(rep, prog)
